@@ -44,7 +44,9 @@ CogFull == {"Cog10", "Cog13", "Cog14", "Cog16", "Cog17"}
 CogShock == {"Cog19", "Cog20", "Cog21"}
 
 RiemannFams == {"RiemannIG", "RiemannGen"}
-Families == {"Noh", "Noh2", "Noh2Cog"} \cup RiemannFams \cup CogNone \cup CogDiv \cup CogFull \cup CogShock
+(* families without a 1-D hydrodynamic scan row (burn times, heat conduction, elasticity): relation / field laws only *)
+PlainFams == {"Sedov", "EHEP", "Mader", "EPpiston", "Kenamond1", "Kenamond2", "Kenamond3", "DSDcyl", "Blake", "Rod1D", "Hutchens1"}
+Families == {"Noh", "Noh2", "Noh2Cog"} \cup RiemannFams \cup PlainFams \cup CogNone \cup CogDiv \cup CogFull \cup CogShock
 
 Cat == [f \in Families |->
   CASE f = "Noh"        -> Row("gamma", "euler",   "closed", {"post", "pre"}, G_PostPre, FALSE)
@@ -52,6 +54,7 @@ Cat == [f \in Families |->
                         -> Row("gamma", "euler",   "closed", {"all"}, G_Smooth, FALSE)
     [] f = "RiemannIG"  -> RowF("gamma2", "euler", "closed", R_Riemann, G_Riemann, FALSE, {"R"})
     [] f = "RiemannGen" -> RowF("gamma2", "euler", "table",  R_Riemann, G_Riemann, FALSE, {"R"})
+    [] f \in PlainFams  -> Row("none",  "none",    IF f \in {"Sedov", "Mader"} THEN "table" ELSE IF f \in {"Rod1D", "Hutchens1"} THEN "series" ELSE "closed", {"all"}, G_Smooth, FALSE)
     [] f \in CogNone    -> Row("cog",   "cognone", "closed", {"all"}, G_Smooth, FALSE)
     [] f \in CogDiv     -> Row("cog",   "cogdiv",  "closed", {"all"}, G_Smooth, FALSE)
     [] f \in CogFull    -> Row("cog",   "cogfull", "closed", {"all"}, G_Smooth, FALSE)
